@@ -300,6 +300,9 @@ def observation(o):
             "sig": _NUM.sub("N", str(why))[:160]}
 
 
+LONG_STRINGS = (256, 257)
+
+
 def prepare(tier, tag):
     t = dict(TIERS[tier])
     tw = t["wire"]   # (the whole-corpus thorough bounds of C01 are not needed for a pool of world messages)
@@ -309,6 +312,29 @@ def prepare(tier, tag):
                                   maxlen=tw["maxlen"], deep=tw["deep"], timeout=tw["timeout"], tag=tag)
     ctx = {"paths": paths, "stats": wstats}
     records, typed = select(ctx, t)
+    # Login CStrings at the boundary of the login crate's CString cap (256 bytes): the model's long
+    # string pattern is set to 256 and 257 bytes for two extra explorations of the login messages.
+    # The blocking reader decides what such an input means; the two async copies must consume the
+    # same bytes (seed C06-d: an async-std copy that stops one byte early at exactly 256).
+    longs = []
+    for n in LONG_STRINGS:
+        ls, lp = wire.run_wire(ldir, os.path.join(C.WORK, "wire-%s-long%d" % (tag, n)), nshards=1, workers=4, nprof=6,
+                               maxlen=1, only="@login", timeout=600, tag="%s-long%d" % (tag, n),
+                               extra_env={"WOWM_LONGSTR": n})
+        wstats.extend(ls)
+        for r in wire.iter_records(lp):
+            if r["kind"] == "codec" and r["exp"] == "login" and any(e.get("k") == "CString" and e["len"] == n + 1 for e in r.get("ev", [])):
+                longs.append(r)
+    if not longs:
+        raise C.ToolError("no login behaviour with a %s-byte CString was explored" % "/".join(map(str, LONG_STRINGS)))
+    seen = {(r["name"], r.get("lv", 0), bytes(r["hdr"] + r["body"])) for r in records}
+    longs.sort(key=lambda r: (r.get("lv", 0), r["dir"], r["name"], r.get("prof", 0), r["hdr"], r["body"]))
+    for r in longs:
+        k = (r["name"], r.get("lv", 0), bytes(r["hdr"] + r["body"]))
+        if k not in seen:
+            seen.add(k)
+            records.append(r)
+    ctx["long_string_records"] = len(longs)
     if not records:
         raise C.ToolError("WowmWire produced no records")
     gen_chunks.main(typed)
